@@ -416,11 +416,19 @@ def problems(draw, profile=None):
     pct = lambda p: draw(st.integers(0, 99)) < p
     n = draw(wsample(P["ns"]))
     all_fixed = pct(P["all_fixed"])
+    # most data are dyadic (exact restatements, exact ties); a share of the cases uses decimal
+    # bounds (k/100), which are not representable, so that one-ulp overshoots of a bound by
+    # scaling / unscaling / step arithmetic can show
+    decimal = pct(P.get("decimal_prob", 25))
     lb, ub, pats = [], [], []
     for i in range(n):
         pat = "fixed" if all_fixed else draw(wsample(P["bound_pats"] + ([("bad", P["bad_bounds"])] if P["bad_bounds"] else [])))
-        a = draw(dy(-4, 4))
-        w = draw(wsample([(0.125, 1), (0.25, 1), (0.5, 2), (1.0, 3), (2.0, 3), (4.0, 2), (6.5, 1)]))
+        if decimal:
+            a = draw(st.integers(-400, 400)) / 100
+            w = draw(st.sampled_from([0.07, 0.3, 0.6, 1.2, 2.1, 3.3]))
+        else:
+            a = draw(dy(-4, 4))
+            w = draw(wsample([(0.125, 1), (0.25, 1), (0.5, 2), (1.0, 3), (2.0, 3), (4.0, 2), (6.5, 1)]))
         if pat == "free":
             l, u = -INF, INF
         elif pat == "lower":
@@ -432,7 +440,7 @@ def problems(draw, profile=None):
         elif pat == "fixed":
             l, u = a, a
         elif pat == "narrow":
-            l, u = a, a + draw(st.sampled_from([0.125, 0.25, 0.5, 1.0]))
+            l, u = a, a + draw(st.sampled_from([0.11, 0.3, 0.7] if decimal else [0.125, 0.25, 0.5, 1.0]))
         elif pat == "nanl":
             l, u = float("nan"), a
         elif pat == "nanu":
